@@ -8,14 +8,14 @@ from .. import VERIF_DIR, docprops, pool, universes
 from ..ddmin import minimize_doc
 from ..runner import Run, h64
 
-QUICK = {"B2": 8000, "B3": 5000, "B4": 4000, "I4": 6000, "I6": 2000, "N1": 7000, "W1": 4000, "S2": 3000, "S3": 1782, "U1": 2000, "X2": 1500, "H4": 1500, "M5": 4000, "L1": 2400, "P2": 2500, "R2": 2500, "R3": 1500, "K7": 2000, "T4": 2000}
+QUICK = {"B2": 8000, "B3": 5000, "B4": 4000, "I4": 6000, "I6": 2000, "N1": 7000, "W1": 4000, "S2": 3000, "S3": 1782, "U1": 2000, "X2": 1500, "H4": 1500, "M5": 4000, "L1": 2400, "P2": 2500, "R2": 2500, "R3": 1500, "K7": 2000, "T4": 2000, "E1": 9000, "L2": 2500, "L3": 2000, "L4": 3000, "L5": 3000, "H5": 2500, "P3": 1500, "M3": 2500, "L6": 2500, "G2": 1500, "H6": 495, "L7": 2500}
 FIRST = {"B2": 1452, "I4": 130, "I6": 8, "U1": 216, "X2": 35}
 UNIVERSES = {
-    "C01": ["B2", "B3", "B4", "I4", "I6", "N1", "W1", "S2", "S3", "U1", "X2", "H4", "M5", "L1", "P2", "R2", "R3", "K7", "T4"],
-    "C02": ["B2", "B3", "B4", "I4", "I6", "N1", "W1", "S2", "S3", "U1", "X2", "H4", "M5", "L1", "P2", "R2", "R3", "K7", "T4"],
-    "C03": ["B2", "B3", "B4", "I4", "I6", "N1", "W1", "S2", "S3", "X2", "H4", "M5", "L1", "P2", "R2", "R3", "K7", "T4"],
-    "C04": ["B2", "B3", "B4", "I4", "I6", "N1", "W1", "S2", "S3", "U1", "X2", "H4", "M5", "L1", "P2", "R2", "R3", "K7", "T4"],
-    "C05": ["B2", "B3", "B4", "I4", "I6", "N1", "W1", "S2", "S3", "U1", "X2", "H4", "M5", "L1", "P2", "R2", "R3", "K7", "T4"],
+    "C01": ["B2", "B3", "B4", "I4", "I6", "N1", "W1", "S2", "S3", "U1", "X2", "H4", "M5", "L1", "P2", "R2", "R3", "K7", "T4", "E1", "L2", "L3", "L4", "L5", "H5", "P3", "M3", "L6", "G2", "H6", "L7"],
+    "C02": ["B2", "B3", "B4", "I4", "I6", "N1", "W1", "S2", "S3", "U1", "X2", "H4", "M5", "L1", "P2", "R2", "R3", "K7", "T4", "E1", "L2", "L3", "L4", "L5", "H5", "P3", "M3", "L6", "G2", "H6", "L7"],
+    "C03": ["B2", "B3", "B4", "I4", "I6", "N1", "W1", "S2", "S3", "X2", "H4", "M5", "L1", "P2", "R2", "R3", "K7", "T4", "E1", "L2", "L3", "L4", "L5", "H5", "P3", "M3", "L6", "G2", "H6", "L7"],
+    "C04": ["B2", "B3", "B4", "I4", "I6", "N1", "W1", "S2", "S3", "U1", "X2", "H4", "M5", "L1", "P2", "R2", "R3", "K7", "T4", "E1", "L2", "L3", "L4", "L5", "H5", "P3", "M3", "L6", "G2", "H6", "L7"],
+    "C05": ["B2", "B3", "B4", "I4", "I6", "N1", "W1", "S2", "S3", "U1", "X2", "H4", "M5", "L1", "P2", "R2", "R3", "K7", "T4", "E1", "L2", "L3", "L4", "L5", "H5", "P3", "M3", "L6", "G2", "H6", "L7"],
 }
 RULES = {
     "C01": "documents = ranks of the bounded-exhaustive universes (line-vocabulary products B2/B3/B4, inline fragment products I4/I6, single-edit neighbourhood N1 and container wraps W1 of the test-suite's own documents, structured nests S2/S3, unicode U1, extension syntax X2) + scaling families + Hypothesis structured documents; oracle: transform() returns and python-function-entry work <= 20000+50*(n+20)^2; non-trivial = document contains a container marker, leaf-block opener or inline delimiter; distinct by source hash",
@@ -73,7 +73,8 @@ def run_universes(run, prop, tier, seed, extensions=(), names=None):
             continue
         ranks, exh = plan_ranks(uname, tier, seed)
         all_exh &= exh
-        jobs = [(uname, c, [prop], tuple(extensions)) for c in pool.chunks(ranks, 400)]
+        ext = tuple(extensions) or universes.extensions_for(uname)
+        jobs = [(uname, c, [prop], ext) for c in pool.chunks(ranks, 400)]
         stats = {"evaluated": 0, "pass": 0, "fail_known": 0, "fail_new": 0, "skipped": 0, "nontrivial": 0, "exhaustive": exh, "size": universes.get(uname).size}
         for res in pool.run_jobs("vp.docprops:eval_ranks", jobs):
             d = res["per_prop"][prop]
@@ -102,15 +103,17 @@ def run_universes(run, prop, tier, seed, extensions=(), names=None):
         uname, rank = lst[0]
         src = universes.get(uname).doc(rank)
 
-        def fails(d, _sig=sig):
-            st, s, _ = eval_one(prop, d, extensions)
+        ext = tuple(extensions) or universes.extensions_for(uname)
+
+        def fails(d, _sig=sig, _ext=ext):
+            st, s, _ = eval_one(prop, d, _ext)
             return st == "fail" and s.split("#")[0] == _sig
 
         try:
             small = minimize_doc(src, fails, budget=300)
         except Exception:  # minimisation is best effort
             small = src
-        run.violation(sig, {"kind": "doc", "universe": uname, "rank": rank, "src": src, "min_src": small, "extensions": list(extensions), "count_this_run": len(lst), "more": [list(x) for x in lst[1:6]]})
+        run.violation(sig, {"kind": "doc", "universe": uname, "rank": rank, "src": src, "min_src": small, "extensions": list(ext), "count_this_run": len(lst), "more": [list(x) for x in lst[1:6]]})
     return all_exh
 
 
